@@ -3,6 +3,7 @@ import ArcSwapModel.Tie.LibRcu
 import ArcSwapModel.Tie.LibPtrEq
 import ArcSwapModel.Tie.LibGuardIntoInner
 import ArcSwapModel.Tie.LibLoad
+import ArcSwapModel.Inv.HazD5
 
 /-!
 # C06 — rcu is an atomic read-modify-write (partial: the commit; see the end for what is missing)
@@ -157,12 +158,35 @@ theorem C06_commit (cfg : Cfg) (c : Nat) (adv : List (Shared × Bool)) (l : Loca
   generalize runT cfg c adv ⟨l, .load .start, 0, 0, none, none, none⟩ = R at *
   simpa only [KR, h] using hk
 
+/-- **the closure is handed a live value (partial)**: at the step at which `rcu` evaluates the
+    closure on the value it loaded, that value has not been destroyed, whatever the other threads
+    have done since the load (replaced it, dropped the old one, consumed or dropped the container)
+    — along every execution that satisfies the ledger's assumptions and has raised no fault; so
+    the pointer still denotes the object that was loaded (its address has not been reused) -/
+theorem C06_closure_sees_live_value_partial (K N T : Nat) (hK : 0 < K) (cfg : Cfg) (progs : Nat → List (String × Op))
+    (sched : List (Nat × Bool)) (he : EnvRun0 K N T (State.initial cfg progs) sched)
+    (hf : (run (State.initial cfg progs) sched).sh.fault = none)
+    (t : Nat) (ht : t < T) (c out tries : Nat) (cur : Guard) (hp : cur.ptr ≠ 0)
+    (hop : ((run (State.initial cfg progs) sched).th t).op = .rcu c out tries (.attempt cur)) :
+    ((run (State.initial cfg progs) sched).sh.heap cur.ptr).live = true :=
+  rcu_closure_value_alive K N T hK cfg progs sched he hf t ht c out tries cur hp hop
+
+/-- … and evaluating it raises no fault -/
+theorem C06_closure_step_no_fault_partial (K N T : Nat) (hK : 0 < K) (cfg : Cfg) (progs : Nat → List (String × Op))
+    (sched : List (Nat × Bool)) (he : EnvRun0 K N T (State.initial cfg progs) sched)
+    (hf : (run (State.initial cfg progs) sched).sh.fault = none)
+    (t : Nat) (ht : t < T) (b : Bool) (c out tries : Nat) (cur : Guard)
+    (hop : ((run (State.initial cfg progs) sched).th t).op = .rcu c out tries (.attempt cur)) :
+    (microStep (run (State.initial cfg progs) sched) t b).1.sh.fault = none :=
+  rcu_attempt_no_fault K N T hK cfg progs sched he hf t ht b c out tries cur hop
+
 /-!
-Not proved yet (needs the global invariants): that the pointer `res` still denotes the *same
-object* `v` that was passed to `f` (the guard `cur` keeps it alive: C01/C10, so address equality is
-identity), hence the fold theorem "k completed increments add exactly k"; and that the results of
-discarded attempts are destroyed (ownership accounting, C02).  The harness checks both on every
-execution (content installed = content replaced + 1; no leak at quiescence).
+Not proved yet: the fold theorem "k completed increments add exactly k" (it needs, besides
+`C06_commit` and the liveness above, that the object's identity is fixed between the load and the
+exchange — the guard `cur` keeps the address from being reused: a corollary still to be stated over
+`hist`), and that the results of discarded attempts are destroyed (ownership accounting, C02).  The
+harness checks both on every execution (content installed = content replaced + 1; no leak at
+quiescence).
 -/
 
 end C06
